@@ -124,6 +124,11 @@ pub fn run(tier: Tier) -> i32 {
         .par_iter()
         .fold(Census::new, |mut cen, d| {
             if let Ok(Ok(c)) = guard(|| prepare(d, KeyForm::Compressed)) {
+                if c.keys.len() > 6 {
+                    // wide multisigs: the witness-existence search does not scale to 7..20 keys
+                    bump(&mut cen, "wide_descriptors_skipped");
+                    return cen;
+                }
                 bump(&mut cen, "descriptors");
                 check_desc(&rep, &c, thorough, &mut cen);
             }
